@@ -369,6 +369,7 @@ def run_shard(rec, seed, shard, tier):
     warnings.filterwarnings("ignore")
     if shard.get("i", 1) % 2 == 1:
         real.hostile_prelude(rec)  # a past: nothing the check decides may depend on it
+        real.toplevel_probes(rec, None, "after the hostile prelude")
     if shard["i"] % 8 == 0:
         arm_reentrant(rec)
     for k in range(CASES[tier]):
